@@ -2,6 +2,8 @@ package props
 
 import (
 	"fmt"
+	"github.com/ipld/go-ipld-prime/linking"
+	"github.com/ipld/go-ipld-prime/node/basicnode"
 	"github.com/ipld/go-ipld-prime/traversal"
 	"strings"
 	"verif/lib/model"
@@ -114,6 +116,51 @@ func (c15) RunCase(c *fw.Ctx, rng *fw.RNG, batch, i int) {
 				cnt[l.Link]++
 				if cnt[l.Link] == 2 {
 					fail("visitonce-loads-twice:WalkTransforming", fmt.Sprintf("WalkTransforming with visit-links-once: link …%x loaded twice", tail4(l.Link)))
+				}
+			}
+		}
+	}
+	// 1d. the transforming walk under link budgets, against its own unrestricted load sequence: a budget of M
+	// lets it make exactly its first M loads and then end with a link-budget error; a sufficient one changes
+	// nothing (round-4 seed C15-12: the budget charged in a function the transforming walk does not go through)
+	{
+		tload := func(m int64) ([]travLoad, error) {
+			lsys, _ := g.LinkSystem()
+			var run travRun
+			lsys.StorageReadOpener = wrapOpener(lsys.StorageReadOpener, &run, nil)
+			cfg := &traversal.Config{LinkSystem: lsys, LinkTargetNodePrototypeChooser: func(datamodel.Link, linking.LinkContext) (datamodel.NodePrototype, error) {
+				return basicnode.Prototype.Any, nil
+			}}
+			prog := traversal.Progress{Cfg: cfg}
+			if m >= 0 {
+				prog.Budget = &traversal.Budget{NodeBudget: 1 << 40, LinkBudget: m}
+			}
+			var terr error
+			if c.Guard("C15:WalkTransforming", func() {
+				_, terr = prog.WalkTransforming(root, sel, func(_ traversal.Progress, n datamodel.Node) (datamodel.Node, error) { return n, nil })
+			}) {
+				return nil, fmt.Errorf("panic")
+			}
+			return run.Loads, terr
+		}
+		if Lt, err := tload(-1); err == nil {
+			for m := 0; m <= len(Lt)+1; m++ {
+				if len(Lt) > 12 && m > 3 && m < len(Lt)-2 && rng.Intn(len(Lt)) > 6 {
+					continue
+				}
+				got, err := tload(int64(m))
+				c.Count("transform_link_budget_walks", 1)
+				want := Lt
+				if m < len(Lt) {
+					want = Lt[:m]
+				}
+				if ok, why := sameLoads(got, want); !ok {
+					fail("link-budget-changes-loads:WalkTransforming", fmt.Sprintf("WalkTransforming, link budget %d (unrestricted: %d loads): %s", m, len(Lt), why))
+				}
+				if m < len(Lt) && !isBudgetErr(err, "link") {
+					fail("link-budget-no-error:WalkTransforming", fmt.Sprintf("WalkTransforming, link budget %d < %d loads but the walk ended with err=%v", m, len(Lt), err))
+				} else if m >= len(Lt) && err != nil {
+					fail("link-budget-spurious-error:WalkTransforming", fmt.Sprintf("WalkTransforming, link budget %d suffices for %d loads but the walk ended with %v", m, len(Lt), err))
 				}
 			}
 		}
